@@ -48,6 +48,12 @@ extern "C" fn nop_destroy(_ctx: *mut c_void) {}
 
 extern "C" fn wh_destroy(_ctx: *mut c_void) {}
 
+/// write-single-register callback: the application stores the value in the point database
+extern "C" fn wh_reg_store(index: u16, value: u16, db: *mut rodbus_ffi::Database, _ctx: *mut c_void) -> ffi::WriteResult {
+    let ok = unsafe { ffi::rodbus_database_update_holding_register(db, index, value) };
+    ffi::WriteResult { success: ok, exception: 2, raw_exception: 0 }
+}
+
 struct SendPtr(*mut rodbus_ffi::Server);
 unsafe impl Send for SendPtr {}
 unsafe impl Sync for SendPtr {}
@@ -60,13 +66,14 @@ fn scenario(n: u16, rounds: u16, reads: u16) {
     let map = unsafe { ffi::rodbus_device_map_create() };
     let handler = ffi::WriteHandler {
         write_single_coil: None,
-        write_single_register: None,
+        write_single_register: Some(wh_reg_store),
         write_multiple_coils: None,
         write_multiple_registers: None,
         on_destroy: Some(wh_destroy),
         ctx: std::ptr::null_mut(),
     };
-    let init = TxArg { n, value: 0, add: true };
+    // register n is written by the client only; the transactions touch 0..n
+    let init = TxArg { n: n + 1, value: 0, add: true };
     let cfgcb = ffi::DatabaseCallback {
         callback: Some(tx_cb),
         on_destroy: Some(nop_destroy),
@@ -119,6 +126,28 @@ fn scenario(n: u16, rounds: u16, reads: u16) {
             }
         } else {
             panic!("unexpected reply to the multi-point read: {:02x?}", got);
+        }
+        // a client write that the server acknowledged must still be there afterwards, whatever the
+        // application's transaction was doing at that moment
+        let wtx = 200 + k;
+        let wval = 0x5000 + k;
+        let wreq = [(wtx >> 8) as u8, wtx as u8, 0, 0, 0, 6, 1, 6, (n >> 8) as u8, n as u8, (wval >> 8) as u8, wval as u8];
+        peer.write(&wreq);
+        kernel::settle();
+        let ack = peer.take_received();
+        if ack != wreq {
+            panic!("unexpected reply to the register write: {:02x?}", ack);
+        }
+        shuttle::thread::yield_now();
+        let rtx = 300 + k;
+        let rreq = [(rtx >> 8) as u8, rtx as u8, 0, 0, 0, 6, 1, 3, (n >> 8) as u8, n as u8, 0, 1];
+        peer.write(&rreq);
+        kernel::settle();
+        let got = peer.take_received();
+        READS.fetch_add(1, Ordering::Relaxed);
+        if got.len() != 11 || got[7] != 3 || (((got[9] as u16) << 8) | got[10] as u16) != wval {
+            TORN.fetch_add(1, Ordering::Relaxed);
+            panic!("torn read: acknowledged write lost: register {} was written with {:#06x} (acknowledged), a later read returned {:02x?}", n, wval, &got[7.min(got.len())..]);
         }
         shuttle::thread::yield_now();
     }
@@ -325,7 +354,7 @@ fn main() {
             let out = std::process::Command::new(exe).args(["_replay", &path]).output().expect("child");
             let stderr = String::from_utf8_lossy(&out.stderr).to_string();
             let file = std::path::Path::new(&path).file_name().map(|f| f.to_string_lossy().to_string()).unwrap_or_default();
-            let prop = if file.starts_with("C02") { "C02" } else if file.starts_with("C17") { "C17" } else { "C19" };
+            let prop = if file.starts_with("C02") { "C02" } else if file.starts_with("C17") { "C17" } else if file.starts_with("C18") { "C18" } else { "C19" };
             let (needle, rule) = if file.contains("-bcast") { ("broadcast lost", "broadcast_lost") } else { ("torn read", "torn_read") };
             match stderr.lines().find(|l| l.contains("PANIC:") && l.contains(needle)) {
                 Some(l) => {
@@ -339,7 +368,7 @@ fn main() {
                 }
             }
         }
-        Some(prop @ ("C19" | "C02" | "C17")) => {
+        Some(prop @ ("C19" | "C02" | "C17" | "C18")) => {
             let prop = prop.to_string();
             let mut tier = std::env::var("VERIF_TIER").unwrap_or_else(|_| "quick".into());
             if let Some(i) = args.iter().position(|a| a == "--tier") {
@@ -349,12 +378,14 @@ fn main() {
             }
             let t0 = std::time::Instant::now();
             let (it_rand, it_pct) = if tier == "thorough" { (2_000_000, 400_000) } else { (6_000, 2_000) };
-            let plan: Vec<(&str, bool, u16, usize)> = if prop == "C19" {
+            let plan: Vec<(&str, bool, u16, usize)> = if prop == "C18" {
+                vec![("random-n8", false, 8, it_rand / 2), ("pct-n8", true, 8, it_pct / 2)]
+            } else if prop == "C19" {
                 vec![("random-n8", false, 8, it_rand), ("random-n2-", false, 2, it_rand / 2), ("random-n125", false, 125, it_rand / 10), ("pct-n8", true, 8, it_pct)]
             } else {
                 vec![("bcast-n2-random", false, 2, it_rand / 2), ("bcast-n3-random", false, 3, it_rand / 2), ("bcast-n2-pct", true, 2, it_pct)]
             };
-            let (rule, what) = if prop == "C19" { ("torn_read", "multi_point_reads_checked") } else { ("broadcast_lost", "broadcasts_checked") };
+            let (rule, what) = if prop == "C19" || prop == "C18" { ("torn_read", "multi_point_reads_checked") } else { ("broadcast_lost", "broadcasts_checked") };
             let mut failure: Option<String> = None;
             let mut batches = Vec::new();
             for (name, pct, n, iters) in &plan {
@@ -378,7 +409,7 @@ fn main() {
                 serde_json::json!({"property_id": prop, "tier": tier, "seed": seed, "level": "exploration", "wall_s": 0.0, "coverage": {"evaluations": 0, "distinct_nontrivial": 0, "rule": "", "samples": []}})
             });
             let total: u64 = ITER.load(Ordering::Relaxed);
-            let (real, stub): (Vec<&str>, Vec<&str>) = if prop == "C19" {
+            let (real, stub): (Vec<&str>, Vec<&str>) = if prop == "C19" || prop == "C18" {
                 (
                     vec!["rodbus-ffi rodbus_server_update_database / database functions", "rodbus TCP server + session task (handler mutex acquisition per request)", "generated Runtime wrapper on the simulated runtime"],
                     vec!["handler mutex = shuttle::sync::Mutex via cfg(rodbus_verif_shuttle)", "network, clock, executor (simtokio)", "application transaction callback with yields between updates"],
